@@ -193,6 +193,35 @@ json runTAHist(const json& c)
 			ev["j"] = j;
 		}
 		else if (op == "destroy") { H.h[i].reset(); }
+		else if (op == "reindexinto")
+		{	// h[j]->ReindexStates(*h[i], q -> (q + rot) % 3, addFinal): the destination is an existing automaton
+			int j = st.at(2).get<int>();
+			size_t rot = st.at(3).get<size_t>();
+			bool addFinal = st.at(4).get<bool>();
+			struct RotF : public VATA::AbstractReindexF
+			{
+				size_t rot;
+				virtual AutBase::StateType operator[](const AutBase::StateType& s) override { return (s + rot) % 3; }
+				virtual AutBase::StateType at(const AutBase::StateType& s) const override { return (s + rot) % 3; }
+			} f;
+			f.rot = rot;
+			H.h[j]->ReindexStates(*H.h[i], f, addFinal);
+			ev["j"] = j; ev["rot"] = rot; ev["addFinal"] = addFinal;
+		}
+		else if (op == "copytrans")
+		{	// h[i]->CopyTransitionsFrom(*h[j], parent in P)
+			int j = st.at(2).get<int>();
+			std::set<size_t> ps;
+			for (const json& q : st.at(3)) { ps.insert(q.get<size_t>()); }
+			struct ParentF : public TA::AbstractCopyF
+			{
+				std::set<size_t> ps;
+				virtual bool operator()(const TA::Transition& t) override { return ps.count(t.GetParent()) > 0; }
+			} f;
+			f.ps = ps;
+			H.h[i]->CopyTransitionsFrom(*H.h[j], f);
+			ev["j"] = j; ev["ps"] = st.at(3);
+		}
 		else if (op == "derive")
 		{
 			std::string kind = st.at(2).get<std::string>();
